@@ -3,6 +3,6 @@
 cd "$(dirname "$0")/.."
 P=$(for i in $(seq -w 1 20); do echo C$i; done)
 echo "## clean tree"; echo $P | tr ' ' '\n' | xargs -P 10 -I{} sh -c './check {} --no-evidence 2>/dev/null | tail -1' | grep -v " 0 new violation" 
-echo "## twins"; for k in rename-locals if-swap inert hoist-temps cmp-flip; do echo $P | tr ' ' '\n' | xargs -P 10 -I{} sh -c "python3 tools/twin_report.py --all --kind=$k {} 2>/dev/null | grep '^==' | grep -v ': 0 failing'"; done
+echo "## twins"; for k in rename-locals if-swap inert hoist-temps cmp-flip reorder; do echo $P | tr ' ' '\n' | xargs -P 10 -I{} sh -c "python3 tools/twin_report.py --all --kind=$k {} 2>/dev/null | grep '^==' | grep -v ': 0 failing'"; done
 echo "## corpus"; echo $P | tr ' ' '\n' | xargs -P 10 -I{} sh -c './tools/corpus.sh {} 2>/dev/null' | grep -v "/tmp/seed/out/" | grep -v "fired: \['C[0-9]*'\]  analysis-errors: \[\]"
 echo "## done"
